@@ -1,5 +1,6 @@
 #!/bin/bash
-# Offline setup: warm the Go build cache for the checkers (plain and instrumented).
+# Offline setup: warm the Go build cache for the checkers (plain and instrumented)
+# and run the scheduler's self-tests and conformance suite.
 set -e
 cd "$(dirname "$0")"
 export GOFLAGS=-mod=mod GOPROXY=off GOSUMDB=off GOTOOLCHAIN=local
@@ -8,5 +9,14 @@ go build -o "$S/vcheck" ./cmd/vcheck
 go build -o "$S/instr" ./cmd/instr
 "$S/instr" -repo /repo -out "$S/ov" -pkgs rtcm/handler,rtcm/pushback,file_handler,apps/appcore,apps/proxy/circular_queue -time file_handler -yield apps/proxy/circular_queue 2>/dev/null
 go build -overlay "$S/ov/overlay.json" -o "$S/mclib" ./cmd/mclib
+"$S/instr" -repo /repo -out "$S/ov2" -pkgs rtcm/handler,rtcm/pushback,file_handler,apps/appcore,apps/rtcmfilter,apps/displayrtcm3,apps/rtcmlogger,apps/proxy,apps/proxy/reportfeed,apps/proxy/circular_queue \
+   -time file_handler,apps/proxy,apps/proxy/reportfeed -dailysink apps/rtcmfilter,apps/rtcmlogger -stdio apps/rtcmlogger \
+   -add /repo/apps/rtcmfilter/verif_harness_test.go=$PWD/harness/rtcmfilter/harness_test.go \
+   -add /repo/apps/displayrtcm3/verif_harness_test.go=$PWD/harness/displayrtcm3/harness_test.go \
+   -add /repo/apps/rtcmlogger/verif_harness_test.go=$PWD/harness/rtcmlogger/harness_test.go \
+   -add /repo/apps/proxy/verif_harness_test.go=$PWD/harness/proxy/harness_test.go 2>/dev/null
+for a in rtcmfilter displayrtcm3 rtcmlogger proxy; do
+  go test -c -vet=off -overlay "$S/ov2/overlay.json" -o "$S/$a.test" github.com/goblimey/go-ntrip/apps/$a
+done
 go test -count=1 ./mc/mcrt/ > "$S/mcrt.log" 2>&1 || { cat "$S/mcrt.log"; echo "scheduler self-tests failed"; exit 1; }
 echo setup ok
